@@ -134,6 +134,22 @@ func Open(id string) bool {
 	return false
 }
 
+// Disc is one discrepancy between the implementation and an oracle.
+type Disc struct {
+	Kind   string `json:"kind"`
+	Detail string `json:"detail"`
+	// KF is the id of the known finding whose signature this discrepancy
+	// matches ("" = none). It only suppresses while that id is listed open.
+	KF string `json:"kf,omitempty"`
+}
+
+func (d Disc) String() string { return d.Kind + ": " + d.Detail }
+
+// D builds a one-element discrepancy list.
+func D(kind, format string, a ...interface{}) []Disc {
+	return []Disc{{Kind: kind, Detail: fmt.Sprintf(format, a...)}}
+}
+
 // ---- collector ------------------------------------------------------------------
 
 type Violation struct {
